@@ -8,6 +8,7 @@ import Dnp3.Driver.Db
 import Dnp3.Driver.Master
 import Dnp3.Driver.Pair
 import Dnp3.Driver.Attr
+import Dnp3.Driver.File70
 open Dnp3 Dnp3.Driver
 
 partial def loop {σ : Type} (h : IO.FS.Stream) (out : IO.FS.Stream) (step : σ → String → σ × List String) (s : σ) : IO Unit := do
@@ -36,4 +37,5 @@ def main (args : List String) : IO UInt32 := do
   | ["pair"] => loop stdin stdout pairStep {}; return 0
   | ["db"] => loop stdin stdout Dnp3.Driver.DbEngine.dbStep ({} : Dnp3.Driver.DbEngine.DbState); return 0
   | ["attr"] => loop stdin stdout Dnp3.Driver.AttrEngine.attrStep ({} : Dnp3.Driver.AttrEngine.AState); return 0
+  | ["file70"] => loop stdin stdout Dnp3.Driver.File70Engine.file70Step ({} : Dnp3.Driver.File70Engine.FState); return 0
   | _ => IO.eprintln "usage: dnp3model <engine>"; return 2
